@@ -169,8 +169,11 @@ def dep_closure(fn, roots):
         seen.add(l)
         for dd in d.all(l):
             if dd[0] in ("stmt", "pstmt"):
-                blocks.setdefault(l, set()).add(dd[1])
-                for x in locals_of_rv(dd[3]["rv"]):
+                rv_ = dd[3]["rv"]
+                plain_copy = dd[0] == "stmt" and rv_["k"] == "use" and rv_["op"].get("k") in ("copy", "move")
+                if not plain_copy:      # a copy made inside a region of a value computed outside it carries no dependence of its own
+                    blocks.setdefault(l, set()).add(dd[1])
+                for x in locals_of_rv(rv_):
                     stack.append(x)
             else:
                 blocks.setdefault(l, set()).add(dd[1])
@@ -200,9 +203,17 @@ def check_result_independent(ck, fn, what):
         if s["k"] == "assign" and s["lhs"]["l"] == 0 and "p" not in s["lhs"]:
             ok_defs.append((bb, s))
     bad = []
+    # `if dry_run { return Ok(v) } ...; Ok(v)` is the same as one return after the branch: tolerated when every Ok return carries the
+    # very same value expression (whose own dependencies are still checked below)
+    inreg = [(bb, s) for bb, s in ok_defs if bb in reg]
+    vals = {repr(df.rvalue_expr(fn, s["rv"])) for bb, s in inreg if s["rv"]["k"] == "agg" and s["rv"].get("variant") == "Ok"}
+    same_everywhere = len(vals) == 1 and len([1 for bb, s in inreg if s["rv"].get("variant") == "Ok"]) >= 2 and \
+        all(s["rv"]["k"] == "agg" and s["rv"].get("variant") in ("Ok", "Err") for bb, s in inreg)
     for bb, s in ok_defs:
         rv = s["rv"]
-        if bb in reg:
+        if bb in reg and not (same_everywhere and rv.get("variant") == "Ok"):
+            if rv["k"] == "agg" and rv.get("variant") == "Err":
+                continue        # an explicit refusal; what may be refused before anything is written is C17's business
             bad.append("return value assigned inside a dry_run-dependent region at %s" % fn.where(s))
             continue
         roots = []
